@@ -119,7 +119,7 @@ def bases(tier):
 
 
 def bound(tier):
-    return 4 if tier == 'thorough' else 3
+    return 5 if tier == 'thorough' else 3
 
 
 def describe(tier):
